@@ -5,6 +5,8 @@ package dawn
 import (
 	"fmt"
 	"math/rand/v2"
+	"os"
+	"path/filepath"
 	"strings"
 
 	"verif.local/sim/simcheck"
@@ -66,6 +68,11 @@ func c08Gen(r *rand.Rand, tier string) any {
 				kinds := zooValueKinds[:len(zooValueKinds)-2] // not the cyclic ones (they need statements)
 				t.Refs[k].Val = valueSpec{Kind: kinds[r.IntN(len(kinds))], V: r.IntN(40)}
 			}
+		}
+		if r.IntN(6) == 0 && t.Form == "decorator" {
+			// a mutable default value that the body itself changes: the values the function
+			// references differ after every execution while the project stays loaded
+			t.Refs = append(t.Refs, refSpec{Kind: "mutdefault"})
 		}
 		t.Always = false
 	}
@@ -180,6 +187,46 @@ func c08Exec(scAny any, c *simcheck.Ctx) *simcheck.Violation {
 		return simcheck.V("fingerprint-unstable", "a second load of identical project text re-executed %s (dawn's reason: %q)", st[0], reason)
 	}
 	c.St.Count("stable_reloads", 1)
+	// (c') identical project text in another directory (a moved checkout, state included)
+	if c.Tapes.Get("moved").Intn(3) == 0 {
+		orig := h.w.root
+		moved := filepath.Join(filepath.Dir(orig), "elsewhere", "proj2")
+		if err := os.MkdirAll(filepath.Dir(moved), 0755); err != nil {
+			return simcheck.V(simcheck.EngineError, "mkdir: %v", err)
+		}
+		if err := os.Rename(orig, moved); err != nil {
+			return simcheck.V(simcheck.EngineError, "rename: %v", err)
+		}
+		h.w.root = moved
+		h.w.bodies = h.p.bodySpecs(moved)
+		h.w.events = nil
+		_, v := run("rebuild of the unchanged tree after moving it to another directory")
+		var st []string
+		reason := ""
+		if v == nil {
+			st = h.startsIn(step)
+			for _, e := range h.w.events {
+				if len(st) > 0 && e.Kind == "TargetEvaluating" && e.Label == st[0] {
+					reason = e.Text
+				}
+			}
+		}
+		if err := os.Rename(moved, orig); err != nil {
+			return simcheck.V(simcheck.EngineError, "rename back: %v", err)
+		}
+		h.w.root = orig
+		h.w.bodies = h.p.bodySpecs(orig)
+		if v != nil {
+			if v.Class == "skip" {
+				return nil
+			}
+			return v
+		}
+		if len(st) > 0 {
+			return simcheck.V("fingerprint-unstable", "identical project text, moved to another directory together with its build state, re-executed %s (dawn's reason: %q)", st[0], reason)
+		}
+		c.St.Count("stable_after_move", 1)
+	}
 	// (d) changing any referenced item makes the referencing targets' fingerprints unequal
 	for i := range sc.Ops {
 		op := &sc.Ops[i]
@@ -220,6 +267,41 @@ func c08Exec(scAny any, c *simcheck.Ctx) *simcheck.Violation {
 			}
 		}
 		c.St.Count("edits_detected", 1)
+	}
+	// (e) values that change while the project stays loaded (the REPL's run(), an embedder):
+	// a forced run executes the bodies that append to their own default list, so on the next
+	// run of the same loaded project those functions reference other values than recorded
+	var mut []string
+	for _, t := range h.p.closure("//:all") {
+		for _, rf := range t.Refs {
+			if rf.Kind == "mutdefault" {
+				mut = append(mut, t.label())
+			}
+		}
+	}
+	if len(mut) > 0 && h.lastProj != nil {
+		for k, always := range []bool{true, false} {
+			step++
+			h.w.events = nil
+			res := h.build(step, &opSpec{Op: "build", Label: "//:all", Keep: true, Always: always}, h.pc, nil)
+			if v := procFailure(res); v != nil || res.LoadErr != nil || res.RunErr != nil {
+				if v != nil && v.Class == "panic" {
+					return simcheck.V("fingerprint-crash", "run %d on one loaded project: %s", k+2, v.Msg)
+				}
+				c.St.Count("kept_project_run_failed", 1)
+				return nil
+			}
+		}
+		started := map[string]bool{}
+		for _, l := range h.startsIn(step) {
+			started[l] = true
+		}
+		for _, l := range mut {
+			if !started[l] {
+				return simcheck.V("fingerprint-misses-change", "the body of %s appended to its own default list in the previous run on this loaded project, so the values it references have changed, but the next run did not re-execute it", l)
+			}
+		}
+		c.St.Count("runtime_mutations_detected", 1)
 	}
 	return nil
 }
